@@ -67,36 +67,33 @@ Proof.
   rewrite (H x (or_introl eq_refl)), IH by (intros y Hy; apply H; right; exact Hy). lia.
 Qed.
 
+(* Since fix eee0fb2 (Spec/Recfm.v) a legal block is one whose length word is representable; its records need not be
+   non-empty, so a table without columns (records of no bytes) is inside the VB theorem too. *)
 Lemma legal_VB_table (T : table) (widths : list nat) (blocks : list (list (list text))) :
-  fits widths T = true -> t_header T <> [] -> concat blocks = t_rows T ->
+  fits widths T = true -> concat blocks = t_rows T ->
   forallb (block_fits widths) blocks = true ->
   legal_VB (map (map (write_ebcdic_row widths)) blocks) = true.
 Proof.
-  intros Hfit Hne Hcat Hblk. destruct (fits_inv widths T Hfit) as [Hlen _].
-  pose proof (fits_positive widths T Hfit) as Hpos.
-  assert (Htot : 1 <= list_sum widths).
-  { apply sum_positive; [|exact Hpos]. intros ->. apply Hne. destruct (t_header T); [reflexivity|discriminate Hlen]. }
+  intros Hfit Hcat Hblk.
   assert (Hrl : forall b row, In b blocks -> In row b -> length (write_ebcdic_row widths row) = list_sum widths).
   { intros b row Hb Hrow. apply (record_length widths T row Hfit). rewrite <- Hcat. apply in_concat. exists b. split; assumption. }
   unfold legal_VB. rewrite forallb_forall. intros b' Hb'. apply in_map_iff in Hb' as (b & <- & Hb).
-  unfold legal_block. apply andb_true_intro. split.
-  - rewrite forallb_forall. intros rec Hrec. apply in_map_iff in Hrec as (row & <- & Hrow).
-    apply Nat.leb_le. rewrite (Hrl b row Hb Hrow). exact Htot.
-  - rewrite forallb_forall in Hblk. specialize (Hblk b Hb). unfold block_fits in Hblk.
-    replace (block_len (map (write_ebcdic_row widths) b)) with (4 + length b * (list_sum widths + 4)); [exact Hblk|].
-    unfold block_len. f_equal. rewrite map_map. symmetry. apply sum_const.
-    intros row Hrow. rewrite (Hrl b row Hb Hrow). reflexivity.
+  unfold legal_block.
+  rewrite forallb_forall in Hblk. specialize (Hblk b Hb). unfold block_fits in Hblk.
+  replace (block_len (map (write_ebcdic_row widths) b)) with (4 + length b * (list_sum widths + 4)); [exact Hblk|].
+  unfold block_len. f_equal. rewrite map_map. symmetry. apply sum_const.
+  intros row Hrow. rewrite (Hrl b row Hb Hrow). reflexivity.
 Qed.
 
 Lemma ebcdic_VB_ok (kind : N) (wb_lrecl : option nat) (T : table) (widths : list nat) (blocks : list (list (list text))) :
-  NoDup (t_header T) -> fits widths T = true -> repertoire_ok T = true -> t_header T <> [] ->
+  NoDup (t_header T) -> fits widths T = true -> repertoire_ok T = true ->
   concat blocks = t_rows T -> forallb (block_fits widths) blocks = true ->
   read_ebcdic_v RECFM_VB kind wb_lrecl (write_ebcdic_VB blocks widths) (layout_of (t_header T) widths) (t_header T)
   = expected [([], pad_table widths T)].
 Proof.
-  intros Hnd Hfit Hrep Hne Hcat Hblk. apply read_v_ok; try assumption.
+  intros Hnd Hfit Hrep Hcat Hblk. apply read_v_ok; try assumption.
   unfold ebcdic_records_v, write_ebcdic_VB.
-  rewrite (VB_record_iter_ok kind _ (legal_VB_table T widths blocks Hfit Hne Hcat Hblk)).
+  rewrite (VB_record_iter_ok kind _ (legal_VB_table T widths blocks Hfit Hcat Hblk)).
   rewrite <- concat_map, Hcat. reflexivity.
 Qed.
 
@@ -147,10 +144,10 @@ Proof.
 Qed.
 
 Lemma image_VB_bytes (T : table) (widths : list nat) (blocks : list (list (list text))) :
-  fits widths T = true -> t_header T <> [] -> concat blocks = t_rows T ->
+  fits widths T = true -> concat blocks = t_rows T ->
   forallb (block_fits widths) blocks = true -> bytes_ok (write_ebcdic_VB blocks widths) = true.
 Proof.
-  intros Hfit Hne Hcat Hblk. unfold write_ebcdic_VB.
+  intros Hfit Hcat Hblk. unfold write_ebcdic_VB.
   apply write_VB_bytes; [apply (legal_VB_table T); assumption|].
   rewrite forallb_forall. intros b' Hb'. apply in_map_iff in Hb' as (b & <- & _). apply rows_bytes.
 Qed.
